@@ -14,7 +14,8 @@ WORKERS = {"quick": 8, "thorough": 16}
 BUDGET_S = {"quick": 110, "thorough": 800}
 RULE = (
     "Hypothesis draws a scenario (S1 stage+transfer into a LocalHashFileDB with state, hardlink on/off; "
-    "S2 index build->md5->save of nested directories with state; S3 store->store transfer local cache -> "
+    "S2 index build->md5->save of nested directories with state, hardlink on/off (odb.add with the existence "
+    "filter on); S3 store->store transfer local cache -> "
     "local remote, closed or expanded request, with/without destination index; S4 upload staging "
     "build(upload=True)+transfer) and a small tree (2-6 files, nested, duplicates, empty file). Run 0 "
     "(forked child, no kill) counts the N filesystem-mutating audit events (open-for-write, rename/replace, "
@@ -88,7 +89,9 @@ def operation(case, run):
             odb = LocalHashFileDB(fs, os.path.join(run, "cache"), state=state, verify=vf or None)
             idx = ibuild(ws, fs)
             idx = md5(idx, state=state)
-            save(idx, odb=odb)
+            # hardlink=True reaches odb.add(..., hardlink=True) with the existence filter on (as `dvc add` with
+            # a hardlink cache type does); absent key in older cases = copy
+            save(idx, odb=odb, **({"hardlink": True} if case.get("hardlink") else {}))
         elif sc == "S3":
             cache = LocalHashFileDB(fs, os.path.join(run, "cache"), state=state)
             remote = LocalHashFileDB(fs, os.path.join(run, "remote"), verify=vf or None)
@@ -453,8 +456,9 @@ def run_case(case, ctx):  # noqa: C901
                     ctx.note(case, Result(classes=[f"scenario={case['scenario']}"], counters=counters))
                     raise Failure("; ".join(f"[{v.sig}] {v.msg}" for v in unknown))
         cl = [f"scenario={case['scenario']}"] + gen.tree_traits(case["tree"])
-        if case["scenario"] == "S1" and case["hardlink"]:
+        if case["scenario"] in ("S1", "S2") and case["hardlink"]:
             cl.append("hardlink")
+            cl.append("hardlink:" + case["scenario"])
         if case.get("pre"):
             cl.append("target-prepopulated")
         if case.get("verify"):
@@ -477,6 +481,7 @@ CANON = [
     {"scenario": "S1", "tree": _T, "hardlink": False, "index": False, "form": "closed", "pre": False, "tree2": None},
     {"scenario": "S1", "tree": _T, "hardlink": True, "index": False, "form": "closed", "pre": True, "tree2": None},
     {"scenario": "S2", "tree": _T, "hardlink": False, "index": False, "form": "closed", "pre": False, "tree2": None},
+    {"scenario": "S2", "tree": _U, "hardlink": True, "index": False, "form": "closed", "pre": False, "tree2": None},
     {"scenario": "S2", "tree": {"d": {"d": {"x": "p:crlf"}}, "y": "p:hello"}, "hardlink": False, "index": False,
      "form": "closed", "pre": True, "tree2": None},
     {"scenario": "S3", "tree": _T, "hardlink": False, "index": True, "form": "expand", "pre": False,
